@@ -2,6 +2,8 @@
 From Coq Require Import List Bool Arith ZArith NArith.
 Import ListNotations.
 From AM Require Import Model.Tracker Proofs.TrackerInv Proofs.TrackerSpec Proofs.TrackerLife.
+From AM Require Import Model.TrackerConc Proofs.TrackerConcLift.
+From AM Require Gen.TrackerLocks.
 
 (* Fix a session s and an sshd pid p.  [allowed_run s p PClean h] is the uniqueness
    discipline of C01 seen from (s, p): LOGIN records of s carry pid p, no other session is
@@ -92,3 +94,34 @@ Proof.
   intros k H. cbn in H.
   repeat (destruct H as [<-|H]; [cbn; repeat split; auto; intros; try discriminate; auto|]). contradiction.
 Qed.
+
+(* ---------- the same statement for CONCURRENT deliveries ----------
+   The daemon delivers logins, audit events and cleanup from different goroutines.  GENERATED from
+   sessiontracker.go: every exported method of the correlator is one critical section of one mutex
+   (C02_calls_atomic).  Under that mutex every complete execution of every thread system under every
+   schedule writes what the sequential correlator writes on the linearization [lin] (calls in the
+   order they began, each thread's program order kept; Proofs/TrackerConcLemmas.v), so the theorem
+   above holds of every concurrent execution. *)
+Theorem C02_calls_atomic : Gen.TrackerLocks.tracker_calls_locked = true.
+Proof. vm_compute. reflexivity. Qed.
+Print Assumptions C02_calls_atomic.
+
+Theorem C02_exactly_once_in_order_concurrent : forall progs sched (s : N) (p : Z),
+  all_done (exec true progs sched) = true ->
+  let h := lin progs sched in
+  wf_session s p h -> no_late_cleanup s p h ->
+  let out := projs s (s_out (exec true progs sched)) in
+  let E := events_from_rec s p h in
+  (rec_seen s p h && login_seen p h = false -> out = []) /\
+  (rec_seen s p h && login_seen p h = true ->
+     exists l k, In_login l h /\ login_p p l = true /\
+                 out = map (pair l) (firstn k E) /\ length (take_until_disp E) <= k /\ k <= length E).
+Proof. exact once_in_order_concurrent. Qed.
+Print Assumptions C02_exactly_once_in_order_concurrent.
+
+(* the linearization keeps every thread's program order and contains exactly the threads' calls *)
+Theorem C02_linearization_program_order : forall progs sched,
+  all_done (exec true progs sched) = true ->
+  forall i, i < length progs -> calls_of i (s_order (exec true progs sched)) = nth i progs [].
+Proof. exact lin_program_order. Qed.
+Print Assumptions C02_linearization_program_order.
